@@ -1158,6 +1158,10 @@ type MacroNode struct {
 	// The macros written at the top level of the same template (this one included),
 	// set once by the parser and read-only afterwards
 	siblings map[string]*MacroNode
+
+	// The import and from-import tags written at the top level of the same template,
+	// in document order; set once by the parser and read-only afterwards
+	imports []Node
 }
 
 func (n *MacroNode) Type() NodeType {
@@ -1314,6 +1318,15 @@ func (n *MacroNode) CallMacro(w io.Writer, ctx *RenderContext, args ...interface
 	// not have them in its own scope)
 	for name, sibling := range n.siblings {
 		macroCtx.SetMacro(name, sibling)
+	}
+
+	// Likewise what the defining template imports at its top level: called in that
+	// template the body finds it in the surrounding scope, called through an import it
+	// used to fail with "function not found"
+	for _, imp := range n.imports {
+		if err := imp.Render(io.Discard, macroCtx); err != nil {
+			return err
+		}
 	}
 
 	// Work out the parameters. A default expression is evaluated before any parameter is
